@@ -226,6 +226,37 @@ def _options_chain(e):
     return out
 
 
+def _options_chain_at(ctx, f, eb, arg, open_block):
+    """The builder calls that shaped the OpenOptions handed over: the chain in the argument expression itself, or -
+    when a local is configured first and then passed by reference - the calls made on that local before."""
+    chain = _options_chain(arg)
+    if chain:
+        return chain
+    a = arg
+    while a[0] == "ref":
+        a = a[2]
+    if not (a[0] == "place" and re.match(r"^\w+$", a[1])):
+        return []
+    var = a[1]
+    dom = dominators(f)
+    out = []
+    for d_ in eb.var_defs(var):
+        out.extend(_options_chain(d_))
+    for b2, t2 in f.all_calls():
+        d, r, _ = ctx.prog.callee_of(t2)
+        cal = r or d or ""
+        if not cal.startswith("std::fs::OpenOptions::"):
+            continue
+        if not (b2 == open_block or b2 in dom.get(open_block, ())):
+            continue
+        e2 = eb.call(b2, t2)
+        recv = expr_str(e2[3][0]) if e2[3] else ""
+        if re.search(r"(?<![\w.])%s(?![\w])" % re.escape(var), recv):
+            arg2 = e2[3][1][1] if len(e2[3]) > 1 and e2[3][1][0] == "const" else None
+            out.append((cal.split("::")[-1], arg2))
+    return out
+
+
 @rule("C01", "C01-W", 3, "who may write: the daemon opens files for writing only in the staged-file copy and touches the filesystem by path only through FileStore", also=("C10", "C12"))
 def c01_w(ctx):
     daemon = [f for f in ctx.prog.by_norm.values() if f.crate == "cfdp_daemon"]
@@ -235,7 +266,7 @@ def c01_w(ctx):
         n_open += 1
         eb = ExprBuilder(ctx.prog, f)
         e = eb.call(b, t)
-        chain = _options_chain(e[3][2]) if len(e[3]) > 2 else []
+        chain = _options_chain_at(ctx, f, eb, e[3][2], b) if len(e[3]) > 2 else []
         writes = [m for m, a in chain if m in WRITE_OPTS and a == 1]
         root = short(f.root or f.norm)
         key = "%s->FileStore::open[%s]" % (root, "w" if writes else "r")
@@ -270,8 +301,9 @@ def c01_t(ctx):
     n = 0
     for f, b, t, d, r in call_sites([f], ends("FileStore::open"), ctx.prog):
         n += 1
-        e = ExprBuilder(ctx.prog, f).call(b, t)
-        chain = _options_chain(e[3][2]) if len(e[3]) > 2 else []
+        eb = ExprBuilder(ctx.prog, f)
+        e = eb.call(b, t)
+        chain = _options_chain_at(ctx, f, eb, e[3][2], b) if len(e[3]) > 2 else []
         if ("truncate", 1) in chain and ("write", 1) in chain:
             yield ok("C01-T", "finalize_file:open", at(f, t["span"]["line"]), {"options": chain})
         else:
